@@ -20,7 +20,7 @@ func arenaCase(c *ev.Case) {
 	rng := c.Rng
 	klen := keySizes[c.Index%3]
 	n := pickLen(c, c.Index/3)
-	key, iv := rng.Bytes(klen), rng.Bytes(blk)
+	key, iv := genKey(c, rng, klen), rng.Bytes(blk)
 	pt, _ := genText(rng, n)
 	b, err := aes.NewCipher(key)
 	if err != nil {
@@ -218,7 +218,7 @@ func reuseCase(c *ev.Case) {
 func coldCase(c *ev.Case) {
 	rng := c.Rng
 	klen := keySizes[c.Index%3]
-	key, iv, nonce := rng.Bytes(klen), rng.Bytes(blk), rng.Bytes(12)
+	key, iv, nonce := genKey(c, rng, klen), rng.Bytes(blk), rng.Bytes(12)
 	n := []int{0, 5, 16, 31}[(c.Index/4)%4]
 	pt := rng.Bytes(n)
 	b, err := aes.NewCipher(key)
@@ -291,7 +291,12 @@ func coldCase(c *ev.Case) {
 
 // bigSizes: from a few KiB (where an implementation may start to work in
 // chunks, in parallel or through pooled buffers) to megabytes; visited by index.
-var bigSizes = []int{8 << 10, 16 << 10, 20000, 40000, 64 << 10, 100001, 256 << 10, 512 << 10, 512<<10 + 16, 768 << 10, 1 << 20, 3 << 20}
+var bigSizes = []int{4 << 10, 8 << 10, 16 << 10, 20000, 32 << 10, 40000, 64 << 10, 100001, 128 << 10, 256 << 10, 512 << 10, 768 << 10, 1 << 20, 2 << 20, 3 << 20}
+
+// bigOffsets: every size is met just below (the padded length is then exactly
+// the size: a chunked implementation's last chunk ends where the padding does),
+// at and just above it.
+var bigOffsets = []int{0, 1, 15, 16, 17, -1, -15, -16, -17}
 
 // bigCase: large inputs (implementations may switch strategy with size). CBC
 // encrypt/decrypt in both layouts, AESCBCDecrypt on a large ciphertext whose
@@ -299,9 +304,11 @@ var bigSizes = []int{8 << 10, 16 << 10, 20000, 40000, 64 << 10, 100001, 256 << 1
 // tampering, and the standalone PKCS#7 pair on a large d.
 func bigCase(c *ev.Case) {
 	rng := c.Rng
-	n := bigSizes[c.Index%len(bigSizes)] + rng.Pick(0, 0, 1, 15, 16)
-	klen := keySizes[(c.Index/len(bigSizes))%3]
-	key, iv := rng.Bytes(klen), rng.Bytes(blk)
+	off := bigOffsets[(c.Index/len(bigSizes))%len(bigOffsets)]
+	n := bigSizes[c.Index%len(bigSizes)] + off
+	klen := keySizes[(c.Index/len(bigSizes)+c.Index)%3]
+	c.Add(fmt.Sprintf("big_offset/%+d", off), 1)
+	key, iv := genKey(c, rng, klen), rng.Bytes(blk)
 	pt := rng.Bytes(n)
 	b, err := aes.NewCipher(key)
 	if err != nil {
